@@ -174,7 +174,7 @@ Qed.
 Definition post (r : option astate) (res : result) : Prop :=
   match res with
   | Normal st' => (exists a', r = Some a' /\ R a' st') /\ Inv st'
-  | Stopped st' => Inv st'
+  | Stopped _ st' => Inv st'
   end.
 
 Lemma aloop_spec f : forall k a res, aloop f k a = Some res ->
@@ -245,11 +245,11 @@ Proof.
     + exact HI.
   - (* seq *)
     destruct (aexec fuel x a) as [[a1|]|] eqn:AX; try discriminate.
-    + pose proof (IHx _ _ _ _ AX HR HI) as P. destruct (exec o x st) as [st1|st1]; simpl in P.
+    + pose proof (IHx _ _ _ _ AX HR HI) as P. destruct (exec o x st) as [st1|rz st1]; simpl in P.
       * destruct P as ((a' & E & R1) & I1). inversion E; subst. eapply IHy; eauto.
       * simpl. inversion A; subst. destruct r; exact P.
     + inversion A; subst; clear A.
-      pose proof (IHx _ _ _ _ AX HR HI) as P. destruct (exec o x st) as [st1|st1]; simpl in P.
+      pose proof (IHx _ _ _ _ AX HR HI) as P. destruct (exec o x st) as [st1|rz st1]; simpl in P.
       * destruct P as ((a' & E & _) & _). discriminate.
       * simpl. exact P.
   - (* if *)
@@ -261,11 +261,11 @@ Proof.
     inversion A; subst; clear A.
     destruct b.
     + rewrite AS in RT. pose proof (IHt _ _ _ _ RT R1 I1) as P.
-      destruct (exec o t st1) as [st2|st2]; simpl in *; auto.
+      destruct (exec o t st1) as [st2|rz st2]; simpl in *; auto.
       destruct P as ((a' & E & R2) & I2). subst rt. split; auto.
       destruct (ajoin_some_l a' re) as (j & J). exists j. split; [exact J|]. eapply R_join_l; eauto.
     + rewrite AS in RE. pose proof (IHe _ _ _ _ RE R1 I1) as P.
-      destruct (exec o e st1) as [st2|st2]; simpl in *; auto.
+      destruct (exec o e st1) as [st2|rz st2]; simpl in *; auto.
       destruct P as ((a' & E & R2) & I2). subst re. split; auto.
       destruct (ajoin_some_r rt a') as (j & J). exists j. split; [exact J|]. eapply R_join_r; eauto.
   - (* for *)
@@ -279,10 +279,10 @@ Proof.
     induction n as [|n IHn]; intros st0 R0 I0; cbn [iterate].
     + simpl. split; eauto.
     + destruct BODY as [B|(a' & B & LE')].
-      * pose proof (IH _ _ _ _ B R0 I0) as P. destruct (exec o body st0) as [st1|st1]; simpl in P.
+      * pose proof (IH _ _ _ _ B R0 I0) as P. destruct (exec o body st0) as [st1|rz st1]; simpl in P.
         -- destruct P as ((a'' & E & _) & _). discriminate.
         -- simpl. exact P.
-      * pose proof (IH _ _ _ _ B R0 I0) as P. destruct (exec o body st0) as [st1|st1]; simpl in P.
+      * pose proof (IH _ _ _ _ B R0 I0) as P. destruct (exec o body st0) as [st1|rz st1]; simpl in P.
         -- destruct P as ((a'' & E & R1) & I1). inversion E; subst. apply IHn; auto. eapply R_weaken; eauto.
         -- simpl. exact P.
 Qed.
@@ -358,3 +358,25 @@ Proof. reflexivity. Qed.
 Example str_and_path_guard_accepted :
   guarded_b (SSeq (SIf (CAnd CFlag (CIsInst 0 true true)) (SIf (CNot (CCheck 0)) SReturn SSkip) SSkip) (SWrite 0)) = true.
 Proof. reflexivity. Qed.
+
+(* lifting the generated obligations *)
+Theorem all_guarded_sound :
+  forall (ws : list (string * stmt)), forallb (fun w => guarded_b (snd w)) ws = true ->
+  forall name s, In (name, s) ws ->
+  forall (o : oracle) (fs0 : fsys) (rho : nat -> value) (p : path) (b : bytes),
+    fs0 p = Some b -> o_flag o = true ->
+    ~ In (p, "y") (s_prompts (final (exec o s (init_state fs0 rho)))) ->
+    s_fs (final (exec o s (init_state fs0 rho))) p = Some b /\
+    ~ In p (s_writes (final (exec o s (init_state fs0 rho)))).
+Proof.
+  intros ws H name s I. rewrite forallb_forall in H. specialize (H _ I). simpl in H.
+  intros o fs0 rho p b. apply (guarded_sound s H o fs0 rho p b).
+Qed.
+
+Theorem all_sites_pass_flag :
+  forall (cs : list call_site), forallb site_ok cs = true ->
+  forall c, In c cs -> forall no_warnings, cli_flag c no_warnings = Some (negb no_warnings).
+Proof.
+  intros cs H c I nw. rewrite forallb_forall in H. specialize (H _ I). unfold site_ok, cli_flag in *.
+  destruct (cs_arg c); try discriminate. reflexivity.
+Qed.
